@@ -6,7 +6,7 @@
    against the real calls on every run.
    What is NOT modelled: the solver's iteration (what a phase does to values, radii and clusters: event payloads). *)
 From Coq Require Import QArith Qreals Reals List ZArith Lra Lia.
-Require Import MPSV.Goal.GoalModel MPSV.Goal.GoalProps MPSV.Goal.StopModel MPSV.Goal.StopProps.
+Require Import MPSV.Goal.GoalModel MPSV.Goal.GoalProps MPSV.Goal.StopModel MPSV.Goal.StopProps MPSV.Goal.StopExtra.
 Import ListNotations.
 Local Open Scope R_scope.
 
@@ -437,3 +437,96 @@ Theorem C02_std_default_cap_not_silent :
   c_mpwp_max cfg = 100000000%Z -> c_minprec cfg = 64%Z -> std_run cfg evs = Some o -> so_exit o <> XDone HSilent.
 Proof. exact std_default_cap_not_silent. Qed.
 Print Assumptions C02_std_default_cap_not_silent.
+
+(* mps_secular_ga_mpsolve: every exit transcribed (sec_run).  For EVERY event list: the driver passes `cleanup:` and copies
+   roots only in crude mode, in avoid-multiprecision mode, or after a stop test that returned true in a phase that is set;
+   when mps_improve ran, the statuses returned are those it left *)
+Theorem C02_sec_run_cleanup_reasons :
+  forall (cfg : gcfg) (evs : list gev) (o : gout),
+  sec_run cfg evs = Some o ->
+  match go_exit o with
+  | GDone w _ | GExitAfterCopy w =>
+    match w with
+    | WErrors => False
+    | WCrude => g_crude cfg = true
+    | WAvoidMp => g_avoid_mp cfg = true
+    | WStop ex ph sts => sec_check_stop ex ph sts = true /\ ph <> NoPhase
+    end
+  | _ => True
+  end /\
+  (forall w io, go_exit o = GDone w (Some io) ->
+     exists cp0 rounds, improve (g_nonewton cfg) (g_user cfg) (g_pprec cfg) cp0 rounds (go_from o) = Some io /\
+                        go_final o = Some (io_sts io)).
+Proof. exact sec_run_cleanup_reasons. Qed.
+Print Assumptions C02_sec_run_cleanup_reasons.
+
+(* isolate clause: a normal end that is neither crude nor avoid-multiprecision had a true stop test on statuses all computed
+   (unless an exit was requested).  NOT covered: mps_validate_inclusions (finite input precision) runs after that test *)
+Theorem C02_sec_run_stop_computed :
+  forall (cfg : gcfg) (evs : list gev) (o : gout) (w : gwhy) (imp : option imp_out),
+  sec_run cfg evs = Some o -> go_exit o = GDone w imp ->
+  match w with
+  | WStop ex ph sts => ex = false -> forallb is_computed sts = true
+  | WCrude => g_crude cfg = true
+  | WAvoidMp => g_avoid_mp cfg = true
+  | WErrors => False
+  end.
+Proof. exact sec_run_stop_computed. Qed.
+Print Assumptions C02_sec_run_stop_computed.
+
+(* approximate clause: mps_improve runs last; not skipped, ended normally, no root OUT: all approximated *)
+Theorem C02_sec_run_approximate :
+  forall (cfg : gcfg) (evs : list gev) (o : gout) (w : gwhy) (io : imp_out),
+  sec_run cfg evs = Some o -> go_exit o = GDone w (Some io) ->
+  io_over io = false -> io_skipped io = false -> Forall (fun r => rinc r <> INC_OUT) (go_from o) ->
+  exists sts, go_final o = Some sts /\ forallb is_approximated sts = true /\ length sts = length (go_from o).
+Proof. exact sec_run_approximate. Qed.
+Print Assumptions C02_sec_run_approximate.
+
+Example C02_sec_run_loop_stop :
+  exists o, sec_run (mkGcfg GIsolate false FloatPhase false false 100000 0 false false)
+     [GvStart false; GvFpe false; GvErr false; GvStop false [ST_CLUSTERED; ST_CLUSTERED]; GvRegen true; GvErr false; GvExitReq false;
+      GvIter false false; GvExitReq false; GvStop false [ST_CLUSTERED; ST_ISOLATED]; GvExitReq false; GvRegen true; GvExitReq false;
+      GvStop false [ST_ISOLATED; ST_ISOLATED]; GvErr false; GvExitReq false] = Some o /\
+    go_exit o = GDone (WStop false FloatPhase [ST_ISOLATED; ST_ISOLATED]) None.
+Proof. eexists; split; [vm_compute; reflexivity | reflexivity]. Qed.
+Example C02_sec_run_avoid_mp_returns_clustered :
+  exists o, sec_run (mkGcfg GIsolate false FloatPhase false true 100000 0 false false)
+     [GvStart false; GvFpe false; GvErr false; GvStop false [ST_CLUSTERED; ST_CLUSTERED]; GvRegen true; GvErr false; GvExitReq false;
+      GvIter false true; GvExitReq false; GvStop false [ST_CLUSTERED; ST_ISOLATED]; GvErr false; GvExitReq false] = Some o /\
+    go_exit o = GDone WAvoidMp None.
+Proof. eexists; split; [vm_compute; reflexivity | reflexivity]. Qed.
+
+(* REFUTED (replayed on the real solver on every run: Chebyshev input, approximate goal, known finding): the secular driver
+   ends normally under the approximate goal, no over_max, with roots that are only ISOLATED: mps_improve returned at once *)
+Theorem C02_sec_approximate_without_mnewton_refuted :
+  exists (cfg : gcfg) (evs : list gev) (o : gout) (io : imp_out),
+  g_goal cfg = GApproximate /\ sec_run cfg evs = Some o /\
+  go_exit o = GDone (WStop false FloatPhase [ST_ISOLATED; ST_ISOLATED]) (Some io) /\
+  io_over io = false /\ io_skipped io = true /\ go_final o = Some [ST_ISOLATED; ST_ISOLATED] /\
+  Forall (fun r => rinc r <> INC_OUT) (go_from o).
+Proof. exact sec_approximate_without_mnewton_refuted. Qed.
+Print Assumptions C02_sec_approximate_without_mnewton_refuted.
+
+
+(* status honesty at the level of the control flow: which array calls leave a root "approximated" *)
+Theorem C02_modify_roots_in_cluster :
+  forall (v : variant) (track : bool) (cls : list cluster) (w : list bool) (sts : list nat) (i : nat),
+  clusters_wf (length sts) cls -> i < length sts ->
+  nth i (modify_roots v track cls w sts) 0 = ST_APPROXIMATED_IN_CLUSTER ->
+  nth i w false = true \/ nth i sts 0 = ST_APPROXIMATED_IN_CLUSTER.
+Proof. exact modify_roots_in_cluster. Qed.
+Print Assumptions C02_modify_roots_in_cluster.
+
+(* a root mps_improve returns approximated was approximated when it started, or its test get_approximated_bits >= prec
+   succeeded in one of the rounds (C02_bits_imply_radius turns that test into the radius bound) *)
+Theorem C02_improve_marks_only_tested :
+  forall (nonewton user : bool) (pprec cp0 : Z) (rounds : list (list bool)) (rs : list rt) (io : imp_out) (i : nat),
+  improve nonewton user pprec cp0 rounds rs = Some io ->
+  is_approximated (nth i (io_sts io) 0) = true ->
+  is_approximated (nth i (map rst rs) 0) = true \/ exists bits, In bits rounds /\ nth i bits false = true.
+Proof. exact improve_marks_only_tested. Qed.
+Print Assumptions C02_improve_marks_only_tested.
+
+Example C02_start_prec_64 : start_prec 64 = 64%Z /\ set_prec 64 128 = 192%Z /\ set_prec 64 384 = 448%Z /\ set_prec 64 106 = 128%Z.
+Proof. vm_compute; auto. Qed.
